@@ -7,6 +7,7 @@ import (
 	"sort"
 	"strings"
 	"sync"
+	"unicode"
 
 	"github.com/google/licenseclassifier/stringclassifier/searchset"
 	"verifh/vrep"
@@ -84,6 +85,9 @@ var c14Scenarios = [][]c14Op{
 	// search set of a registered value of 4.6 KB, while a further value is added; every query is asked
 	// again after the join (bookkeeping of what is still to be built)
 	{{"MM", "@E0", ""}, {"MM", "@E0", ""}, {"ADD", "over the moon", "K3"}},
+	// scenario 24 (v1deep profile: searchset and tokenizer are monitored too): texts with punctuation
+	// outside ASCII
+	{{"MM", "x \u00ab the quick brown fox \u00bb y \u2026", ""}, {"MM", "\u00bf lazy dog jumps \u2026 \u00ab", ""}},
 }
 
 // c14InvalidFirst (scenarios 15/16): an invalid-UTF-8 value is registered while the classifier is built.
@@ -342,6 +346,17 @@ func c14Sched(c *vrep.Ctx) {
 }
 
 // c14Race: free-running companion with the Go race detector.
+// c14Punct: every punctuation character between U+00A1 and U+FF65.
+var c14Punct = func() []string {
+	var out []string
+	for r := rune(0xa1); r < 0xff66; r++ {
+		if unicode.IsPunct(r) {
+			out = append(out, string(r))
+		}
+	}
+	return out
+}()
+
 func c14Race(c *vrep.Ctx) {
 	n := c.Pick(32, 64)
 	rounds := c.Pick(20, 60)
@@ -353,7 +368,7 @@ func c14Race(c *vrep.Ctx) {
 		n, rounds = 96, c.Pick(3, 8)
 	}
 	all := c14AllText()
-	c.R.Rule = fmt.Sprintf("free-running companion (sampling over schedules): %d real goroutines x %d rounds calling MultipleMatch / NearestMatch / AddValue on one shared classifier (lazy search sets; %d extra known values that all occur in one of the texts), -race build; results of the read-only calls compared with sequential results where no AddValue interferes; race detector reports, runtime deadlock reports and hangs are violations", n, rounds, c14Extra)
+	c.R.Rule = fmt.Sprintf("free-running companion (sampling over schedules): %d real goroutines x %d rounds calling MultipleMatch (also on texts with non-ASCII punctuation not seen before in the process) / NearestMatch / AddValue on one shared classifier (lazy search sets; %d extra known values that all occur in one of the texts), -race build; results of the read-only calls compared with sequential results where no AddValue interferes; race detector reports, runtime deadlock reports and hangs are violations", n, rounds, c14Extra)
 	for round := 0; round < rounds; round++ {
 		cl := c14Build(round%2 == 1)
 		var wg sync.WaitGroup
@@ -363,6 +378,14 @@ func c14Race(c *vrep.Ctx) {
 				defer wg.Done()
 				if c14Extra > 0 && g%4 != 3 {
 					cl.MultipleMatch(all)
+					return
+				}
+				if c14Extra == 0 && g%8 >= 4 {
+					// texts with punctuation outside ASCII that this process has not seen before (whatever
+					// the library remembers per character is first written here, by calls that overlap)
+					p := c14Punct[(round*n+g)%len(c14Punct)]
+					q := c14Punct[(round*n+g+len(c14Punct)/2)%len(c14Punct)]
+					cl.MultipleMatch("x " + p + "the quick brown fox" + q + " y lazy dog jumps " + p)
 					return
 				}
 				switch g % 4 {
